@@ -64,3 +64,48 @@ Fixpoint win_ok_s {A} (sigs : list (list farg)) (s : stmt A) : bool :=
   end.
 
 Definition win_consistent {A} (sigs : list (list farg)) (p : proc A) : bool := forallb (win_ok_s sigs) (p_body p).
+
+(* every name a statement uses is bound in the environment (the compiler would raise KeyError otherwise) *)
+Fixpoint bound_s {A} (G : env) (s : stmt A) : bool :=
+  match s with
+  | SAssign x _ _ | SReduce x _ _ => match lookup x G with Some _ => true | None => false end
+  | SWin _ src _ _ => match lookup src G with Some _ => true | None => false end
+  | SCall _ args => forallb (fun a => match arg_name a with
+                                      | Some x => match lookup x G with Some _ => true | None => false end
+                                      | None => true
+                                      end) args
+  | SIf b1 b2 => forallb (bound_s G) b1 && forallb (bound_s G) b2
+  | SFor b => forallb (bound_s G) b
+  | _ => true
+  end.
+
+(* stateless consequences of hyp_s at every (nested) statement *)
+Fixpoint local_hyp_s {A} (sigs : list (list farg)) (G : env) (s : stmt A) : bool :=
+  match s with
+  | SWin w src _ sb =>
+      Nat.eqb sb (rootG G src)
+      && match lookup w G with
+         | Some b => (match b_org b with FromWin => true | _ => false end) && Nat.eqb (b_src b) sb
+         | None => false
+         end
+  | SCall f args => match nth_error sigs f with Some fs => sites_ok G args fs | None => false end
+  | SIf b1 b2 => forallb (local_hyp_s sigs G) b1 && forallb (local_hyp_s sigs G) b2
+  | SFor b => forallb (local_hyp_s sigs G) b
+  | _ => true
+  end.
+
+(* names written by a statement, before resolution to root buffers *)
+Fixpoint wn_args (args : list carg) (flags : list bool) : list ident :=
+  match args, flags with
+  | a :: args', w :: flags' => (match arg_name a with Some x => if w then [x] else [] | None => [] end) ++ wn_args args' flags'
+  | _, _ => []
+  end.
+
+Fixpoint wn_s {A} (W : list (list bool)) (s : stmt A) : list ident :=
+  match s with
+  | SAssign x _ _ | SReduce x _ _ => [x]
+  | SCall f args => wn_args args (nth f W [])
+  | SIf b1 b2 => flat_map (wn_s W) b1 ++ flat_map (wn_s W) b2
+  | SFor b => flat_map (wn_s W) b
+  | _ => []
+  end.
